@@ -810,3 +810,126 @@ def public_callees(repo: Repo, f: FuncInfo) -> Set[str]:
     ci = repo.classes.get(f.cls)
     names = {n.name for n in getattr(ci, "node", ast.Module(body=[], type_ignores=[])).body if isinstance(n, ast.FunctionDef)} if ci is not None else set()
     return {n for n in names if not n.startswith("_") and n != f.name}
+
+
+def fold_table_updates(repo: Repo, modsuffixes: Iterable[str]) -> int:
+    """normalisation the flattener lacks (candidate for sa/inline.py): a local table written as a display and completed at once by
+    `T.update(dict.fromkeys(CONSTANT_KEYS, v))` / `T.update({k: v, ..})` / `T[k] = v` with constant keys IS the display with those entries
+    appended (later entries win, as in a display).  The statements are merged in the function's tree (same behaviour), so that the engine's
+    static-table handling (`T.get(key)` -> key chain, handler values -> tags) applies.  Returns the number of merged statements."""
+    done = 0
+    for sfx in modsuffixes:
+        try:
+            m = repo.module(sfx)
+        except Exception:
+            continue
+        for f in repo.all_funcs():
+            if f.mod is not m:
+                continue
+            for holder in ast.walk(f.node):
+                body = getattr(holder, "body", None)
+                if not isinstance(body, list):
+                    continue
+                i = 0
+                while i < len(body):
+                    st = body[i]
+                    if isinstance(st, ast.Assign) and len(st.targets) == 1 and isinstance(st.targets[0], ast.Name) and isinstance(st.value, ast.Dict) \
+                            and all(k is not None for k in st.value.keys):
+                        name, disp = st.targets[0].id, st.value
+                        while i + 1 < len(body):
+                            nx = body[i + 1]
+                            add = _table_entries(repo, f, name, nx)
+                            if add is None:
+                                break
+                            for k, v in add:
+                                disp.keys.append(k)
+                                disp.values.append(v)
+                            del body[i + 1]
+                            done += 1
+                    i += 1
+    done += _inline_table_builders(repo, modsuffixes)
+    return done
+
+
+def _inline_table_builders(repo: Repo, modsuffixes: Iterable[str]) -> int:
+    """`T = self._make_table()` where the private, argument-less helper does nothing but build and return a display of constant keys
+    (`t = {..}; return t` / `return {..}`, values over self / globals only): the call is the display.  Written in place so that the
+    table is a local bound once to a display -- the form the engine's static-table handling starts from."""
+    import copy
+    done = 0
+    mods = []
+    for sfx in modsuffixes:
+        try:
+            mods.append(repo.module(sfx))
+        except Exception:
+            pass
+    for f in repo.all_funcs():
+        if f.mod not in mods:
+            continue
+        for n in ast.walk(f.node):
+            if not (isinstance(n, (ast.Assign, ast.AnnAssign)) and isinstance(getattr(n, "value", None), ast.Call)):
+                continue
+            c = n.value
+            if c.args or c.keywords:
+                continue
+            h = None
+            if isinstance(c.func, ast.Attribute) and isinstance(c.func.value, ast.Name) and f.cls and c.func.value.id in (f.self_name, f.cls) \
+                    and c.func.attr.startswith("_") and not c.func.attr.startswith("__"):
+                h = repo.find_method(f.cls, c.func.attr)
+            elif isinstance(c.func, ast.Name) and c.func.id.startswith("_"):
+                h = repo.func_opt(f"{f.mod.short}::{c.func.id}")
+            if h is None or h is f or (h.is_method and not f.is_method):
+                continue
+            body = [s for s in h.node.body if not (isinstance(s, ast.Expr) and isinstance(s.value, ast.Constant))]
+            disp = None
+            if len(body) == 1 and isinstance(body[0], ast.Return) and isinstance(body[0].value, ast.Dict):
+                disp = body[0].value
+            elif len(body) == 2 and isinstance(body[0], ast.Assign) and len(body[0].targets) == 1 and isinstance(body[0].targets[0], ast.Name) \
+                    and isinstance(body[0].value, ast.Dict) and isinstance(body[1], ast.Return) and isinstance(body[1].value, ast.Name) \
+                    and body[1].value.id == body[0].targets[0].id:
+                disp = body[0].value
+            if disp is None or not disp.keys or any(k is None or not isinstance(k, ast.Constant) for k in disp.keys):
+                continue
+            params = set(h.params)
+            helper_self = h.params[0] if h.is_method and h.params else None
+            names = {x.id for v in disp.values for x in ast.walk(v) if isinstance(x, ast.Name)}
+            if names & (params - {helper_self}):
+                continue
+            new = copy.deepcopy(disp)
+            if helper_self and helper_self != f.self_name:
+                for x in ast.walk(new):
+                    if isinstance(x, ast.Name) and x.id == helper_self:
+                        x.id = f.self_name
+            n.value = ast.copy_location(new, c)
+            ast.fix_missing_locations(n)
+            done += 1
+    return done
+
+
+def _table_entries(repo: Repo, f: FuncInfo, name: str, st: ast.stmt):
+    """[(key node, value node)] that the statement appends to the table `name`, None when it is not such a statement"""
+    def const_key(k):
+        return isinstance(k, ast.Constant) and isinstance(k.value, (str, int))
+
+    if isinstance(st, ast.Assign) and len(st.targets) == 1 and isinstance(st.targets[0], ast.Subscript) and isinstance(st.targets[0].value, ast.Name) \
+            and st.targets[0].value.id == name and const_key(st.targets[0].slice) and name not in {x.id for x in ast.walk(st.value) if isinstance(x, ast.Name)}:
+        return [(st.targets[0].slice, st.value)]
+    if isinstance(st, ast.Expr) and isinstance(st.value, ast.Call) and isinstance(st.value.func, ast.Attribute) and st.value.func.attr == "update" \
+            and isinstance(st.value.func.value, ast.Name) and st.value.func.value.id == name and len(st.value.args) == 1 and not st.value.keywords:
+        a = st.value.args[0]
+        if isinstance(a, ast.Dict) and all(k is not None and const_key(k) for k in a.keys):
+            return list(zip(a.keys, a.values))
+        if isinstance(a, ast.Call) and isinstance(a.func, ast.Attribute) and a.func.attr == "fromkeys" and isinstance(a.func.value, ast.Name) \
+                and a.func.value.id == "dict" and len(a.args) == 2 and isinstance(a.args[1], (ast.Attribute, ast.Name, ast.Constant)):
+            ks = a.args[0]
+            vals = None
+            if isinstance(ks, (ast.Tuple, ast.List)) and all(const_key(k) for k in ks.elts):
+                vals = [k.value for k in ks.elts]
+            elif isinstance(ks, ast.Name):
+                ok, v = repo.const_value(f.mod.name, ks.id)
+                if ok and isinstance(v, (list, tuple)) and all(isinstance(x, (str, int)) for x in v):
+                    vals = list(v)
+            if vals is not None:
+                import copy
+                return [(ast.copy_location(ast.Constant(value=x), st), copy.deepcopy(a.args[1])) for x in vals]
+    return None
